@@ -37,6 +37,8 @@ def plan(tier, seed):
     cases += [{'family': 'hostile_names', 'cseed': rnd.randrange(1 << 30)} for _ in range(n_h)]
     # wide groups (11-16 nodes of one type): vectorization grouping with index-based edge forms
     cases += [{'family': 'wide', 'cseed': rnd.randrange(1 << 30)} for _ in range(24 if tier == 'quick' else 500)]
+    # edges through EdgeTemplates (one- and two-input edge operators, the second input addressed by an explicit variable path)
+    cases += [{'family': 'edge_templates', 'cseed': rnd.randrange(1 << 30)} for _ in range(40 if tier == 'quick' else 900)]
     return cases
 
 
@@ -52,8 +54,8 @@ def make_case(case, ctx):
     want = case.get('want')
     for attempt in range(300):
         c4 = {'cseed': rnd.randrange(1 << 30)}
-        if case.get('family') == 'wide':
-            c4['family'] = 'wide'
+        if case.get('family') in ('wide', 'edge_templates'):
+            c4['family'] = case['family']
         if case.get('family') == 'hostile_names':
             c4.update(pool='derived', hostile_labels=rnd.random() < 0.6)
             if rnd.random() < 0.6:
